@@ -14,15 +14,17 @@ verus! {
 //@path std::thread::sleep => thread_sleep
 //@path std::time::Duration::from_millis => duration_from_millis
 //@path Journal::recover => journal_recover
-//@world fs_read try_exists file.try_lock *.open Self::check_version LockedFileGuard::try_acquire journal_recover Self::recover Self::create_new File::create_new
+//@world fs_read try_exists file.try_lock file.try_lock_shared *.open Self::check_version LockedFileGuard::try_acquire journal_recover Self::recover Self::create_new File::create_new
 
 // ---- ghost world: the file system as far as opening a database is concerned
 pub struct World {
     pub files: Map<int, Seq<u8>>,       // existing regular files by path identity -> content
     pub lock_other: Set<int>,           // paths whose flock is held through ANOTHER open file description (another instance)
-    pub lock_mine: Set<int>,            // paths whose flock this call has acquired
+    pub lock_mine: Set<int>,            // paths whose EXCLUSIVE flock this call has acquired
+    pub lock_mine_shared: Set<int>,     // paths on which this call holds only a SHARED flock (does not keep other instances out)
     pub mutations: int,                 // number of file-system mutations performed (create / truncate / write / unlink)
     pub recovered: Set<int>, pub created: Set<int>,   // directories handed to Database::recover / Database::create_new
+    pub flush_tasks_cleared: bool, pub keyspaces_cleared: bool, pub journal_queue_cleared: bool, pub dir_removed: bool,   // Drop for DatabaseInner
 }
 pub struct PathBuf { pub id: Ghost<int> }
 pub struct Path { pub id: Ghost<int> }
@@ -60,6 +62,12 @@ impl File {
                 r is Err ==> *final(w) == *old(w),
                 r matches Err(TryLockError::WouldBlock) ==> old(w).lock_other.contains(self.path@),
                 old(w).lock_other.contains(self.path@) ==> r is Err,
+    { unimplemented!() }
+    // flock(LOCK_SH | LOCK_NB): succeeds alongside other shared holders; it excludes nobody who also locks shared
+    #[verifier::external_body]
+    pub fn try_lock_shared(&self, Tracked(w): Tracked<&mut World>) -> (r: Result<(), TryLockError>)
+        ensures r is Ok ==> *final(w) == (World { lock_mine_shared: old(w).lock_mine_shared.insert(self.path@), ..*old(w) }),
+                r is Err ==> *final(w) == *old(w),
     { unimplemented!() }
     // O_CREAT | O_EXCL: creates the file or fails with AlreadyExists
     #[verifier::external_body]
@@ -178,6 +186,40 @@ impl Database {
         // a directory that carries a version marker is never re-initialised; it goes through recover (and its version check)
         old(w).files.dom().contains(join_id(config.path.id@, VERSION_MARKER as int)) ==> final(w).created == old(w).created, // [C17:existing-marker-is-never-overwritten-by-create]
         !old(w).files.dom().contains(join_id(config.path.id@, VERSION_MARKER as int)) ==> final(w).recovered == old(w).recovered,
+//@end
+
+// ---- Drop for DatabaseInner (src/db.rs), from the first cycle-breaking call to the end of drop(): the handles that point back
+// at the database (flush tasks, registered keyspaces, eviction watermarks of sealed journals) are released unconditionally,
+// otherwise the Arc cycle keeps DatabaseInner's fields -- the directory lock guard and the journal -- alive for ever
+pub struct FlushManager { pub dummy: u8 }
+impl FlushManager { #[verifier::external_body] pub fn clear(&self, Tracked(w): Tracked<&mut World>) ensures *final(w) == (World { flush_tasks_cleared: true, ..*old(w) }) { unimplemented!() } }
+pub struct RwLockH<T> { pub ph: core::marker::PhantomData<T> }
+pub struct RwWriteResult<T> { pub ph: core::marker::PhantomData<T> }
+impl<T> RwLockH<T> { #[verifier::external_body] pub fn write(&self) -> (r: RwWriteResult<T>) { unimplemented!() } }
+impl<T> RwWriteResult<T> { #[verifier::external_body] pub fn expect(self, m: &str) -> (r: T) { unimplemented!() } }   // poisoned lock panics: not modelled
+pub struct KeyspacesG { pub dummy: u8 }
+impl KeyspacesG { #[verifier::external_body] pub fn clear(&mut self, Tracked(w): Tracked<&mut World>) ensures *final(w) == (World { keyspaces_cleared: true, ..*old(w) }) { unimplemented!() } }
+pub struct JournalManagerG { pub dummy: u8 }
+impl JournalManagerG { #[verifier::external_body] pub fn clear(&mut self, Tracked(w): Tracked<&mut World>) ensures *final(w) == (World { journal_queue_cleared: true, ..*old(w) }) { unimplemented!() } }
+pub struct SupervisorD { pub flush_manager: FlushManager, pub keyspaces: RwLockH<KeyspacesG>, pub journal_manager: RwLockH<JournalManagerG> }
+pub struct ConfigD { pub clean_path_on_drop: bool, pub path: PathBuf }
+impl PathBuf { #[verifier::external_body] pub fn display(&self) -> (r: u8) { unimplemented!() } }
+#[verifier::external_body] pub fn remove_dir_all(p: &PathBuf, Tracked(w): Tracked<&mut World>) -> (r: Result<(), IoError>) ensures *final(w) == (World { dir_removed: final(w).dir_removed, ..*old(w) }) { unimplemented!() }
+pub struct DatabaseInner { pub supervisor: SupervisorD, pub config: ConfigD }
+
+//@extract src/db.rs :: Drop for DatabaseInner :: drop as=drop_break_cycles world inherent props=C17
+//@anchor self.supervisor.flush_manager.clear()
+//@to-block-end
+//@world flush_manager.clear .clear remove_dir_all
+//@sig fn drop_break_cycles(&mut self) -> ()
+//@contract
+    ensures true,
+//@proof before shim_slice_end
+    proof {
+        // C17: after the last handle is dropped every back-reference is gone, so the lock guard field is released and the
+        // journal is dropped (and synced by Drop for Journal); reopening then succeeds
+        assert(w.flush_tasks_cleared && w.keyspaces_cleared && w.journal_queue_cleared); // [C17:drop-releases-every-back-reference-to-the-database]
+    }
 //@end
 
 //@canary
